@@ -30,6 +30,7 @@ type Job struct {
 	Cases  []Case  `json:"cases"`
 	Pairs  bool    `json:"pairs"`  // after each single-deviation case, enumerate second deviations adaptively
 	MinK2  []int   `json:"min_k2"` // per case: smallest position of a second deviation
+	Stops  int     `json:"stops"`  // how often a worker gave up on this job after a hang or a leak
 	Resume *[2]int `json:"resume"` // skip every cursor <= Resume (single index, pair index; -1 = the single itself)
 }
 
@@ -313,6 +314,12 @@ func (p *parent) execute(jobs []Job, stall time.Duration) {
 				if out.Stopped != nil {
 					p.restarts++
 					job.Resume = out.Stopped
+					job.Stops++
+					if job.Stops >= 3 {
+						// every hang costs the hang detector's 10 s: a job that keeps hanging is abandoned
+						p.run.Cap(fmt.Sprintf("job abandoned after %d hangs/leaks (%d cases, first %s)", job.Stops, len(job.Cases), job.Cases[0].key()))
+						continue
+					}
 					next = append(next, job)
 				}
 			}
